@@ -20,6 +20,7 @@ import (
 	"sync/atomic"
 	"time"
 
+	"github.com/facebookincubator/dns/dnsrocks/db"
 	"github.com/facebookincubator/dns/dnsrocks/dnsserver"
 	"github.com/miekg/dns"
 
@@ -86,8 +87,12 @@ type unit struct {
 	cfg     *config
 	cfgOrd  int
 	backend dnsfix.Backend
+	store   string // name of the storage configuration in fingerprints
 	cache   bool
 }
+
+// storeCDBPerFamily is CDB read with db.SeparateBitMap (per-family prefix-length sets).
+const storeCDBPerFamily = "cdb-perfamily"
 
 type counters struct {
 	serves, evals, nontrivial, cases, failing int64
@@ -366,13 +371,13 @@ func runUnit(r *vlib.Run, path, text string, u unit, queries []*query, wires [][
 				c.failing++
 			}
 			for _, v := range vs {
-				g := fmt.Sprintf("%s/%s/%s/%s/%s", u.backend, v.kind, u.cfg.id, classNames[q.class], v.shape)
+				g := fmt.Sprintf("%s/%s/%s/%s/%s", u.store, v.kind, u.cfg.id, classNames[q.class], v.shape)
 				f := groups[g]
 				if f == nil {
 					f = &finding{group: g, cfgOrd: u.cfgOrd, path: p, qOrd: q.ord,
-						fp:     fmt.Sprintf("ecs/%s/%s/%s/%s/%s@%s", u.backend, v.kind, u.cfg.id, classNames[q.class], q.id(), p),
-						detail: fmt.Sprintf("%s\nconfiguration %s on %s, path %s, query %s %s from %s with %s\nmodel: %s\nresponse: %s", v.text, u.cfg.id, u.backend, p, q.name, dns.TypeToString[q.qtype], q.resolver, q.formID(), e.decider, o.canon()),
-						replay: map[string]interface{}{"backend": u.backend.String(), "config": u.cfg.id, "data": text, "cache": u.cache, "path": p,
+						fp:     fmt.Sprintf("ecs/%s/%s/%s/%s/%s@%s", u.store, v.kind, u.cfg.id, classNames[q.class], q.id(), p),
+						detail: fmt.Sprintf("%s\nconfiguration %s on %s, path %s, query %s %s from %s with %s\nmodel: %s\nresponse: %s", v.text, u.cfg.id, u.store, p, q.name, dns.TypeToString[q.qtype], q.resolver, q.formID(), e.decider, o.canon()),
+						replay: map[string]interface{}{"backend": u.backend.String(), "store": u.store, "config": u.cfg.id, "data": text, "cache": u.cache, "path": p,
 							"query": q.id(), "query_wire_hex": fmt.Sprintf("%x", wires[qi]), "resolver": q.resolver, "kind": v.kind, "expected": fmt.Sprintf("%+v", e), "response": o.canon()}}
 					groups[g] = f
 					order = append(order, g)
@@ -382,7 +387,7 @@ func runUnit(r *vlib.Run, path, text string, u unit, queries []*query, wires [][
 					f.example = append(f.example, q.id()+"@"+p)
 				}
 			}
-			if c.cases&(c.cases-1) == 0 && !u.cache && u.backend == dnsfix.CDB && u.cfg.id == "8nested+def-M" {
+			if c.cases&(c.cases-1) == 0 && !u.cache && u.store == "cdb" && u.cfg.id == "8nested+def-M" {
 				r.Sample(map[string]string{"config": u.cfg.id, "backend": u.backend.String(), "path": p, "query": q.id(), "model": e.decider,
 					"want_scope": fmt.Sprint(e.scope), "response": o.canon()})
 			}
@@ -442,17 +447,27 @@ func main() {
 		wires[i] = q.wire()
 	}
 
-	var units []unit
+	var units, units2 []unit
 	for ci := range configs {
 		for _, b := range dnsfix.Backends {
-			units = append(units, unit{cfg: &configs[ci], cfgOrd: ci, backend: b})
+			units = append(units, unit{cfg: &configs[ci], cfgOrd: ci, backend: b, store: b.String()})
 		}
+		units2 = append(units2, unit{cfg: &configs[ci], cfgOrd: ci, backend: dnsfix.CDB, store: storeCDBPerFamily})
 	}
 	var cnt counters
-	results := make([][]*finding, len(units))
+	results := make([][]*finding, len(units)+len(units2))
+	db.SeparateBitMap = false
 	vlib.ParallelFor(len(units), func(i int) {
 		results[i] = runPair(r, dir, units[i], queries, wires, &cnt)
 	})
+	// Second phase: the same CDB files read through the per-family prefix-length
+	// sets (FBDNS_SEPARATE_MASKLENS); the switch is a package variable, so the
+	// phases do not overlap.
+	db.SeparateBitMap = true
+	vlib.ParallelFor(len(units2), func(i int) {
+		results[len(units)+i] = runPair(r, dir, units2[i], queries, wires, &cnt)
+	})
+	db.SeparateBitMap = false
 	clean()
 
 	// Minimisation across units: one report per (backend, kind, configuration,
@@ -509,7 +524,7 @@ func main() {
 	r.Set("distinct_nontrivial", cnt.nontrivial)
 	r.Set("configurations", len(configs))
 	r.Set("configuration_ids", strings.Join(cfgIDs, " "))
-	r.Set("backends", "cdb rdb-v1 rdb-v2")
+	r.Set("backends", "cdb rdb-v1 rdb-v2 cdb-perfamily(db.SeparateBitMap)")
 	r.Set("databases_compiled", cnt.dbs)
 	r.Set("handlers_opened", cnt.handlers)
 	r.Set("queries_per_database", len(queries))
@@ -539,7 +554,7 @@ func main() {
 	if cnt.unexpectedRcode > 0 {
 		r.Note("%d cases were answered with an rcode other than the one the response class was built for; OPT/ECS were judged all the same", cnt.unexpectedRcode)
 	}
-	r.Set("rule", "configurations = 13 client-subnet map contents (no '8' map; '8' map with no subnets / only 0.0.0.0/0 / only ::/0 / both / host /32+/128 / nested 10/8>10.1/16>10.1.1/24>10.1.1.0/25 and 2001:db8::/32>/48>/56>/64, per family and combined, with defaults, with hosts, with the other family's default only) x resolver map absent/present; each compiled by the real compilers to CDB, RocksDB v1 keys, RocksDB v2 keys and opened in the real handler with the cache off and on. queries = {no EDNS, EDNS0 without options, cookie, option 65001, ECS, ECS+cookie, cookie+ECS} x ECS variants (family 1: source lengths {0,1,8,9,16,24,25,32}, thorough 0..32; family 2: {0,1,32,48,56,64,128}, thorough 0..128; 6/7 base addresses on and off the declared subnets, masked to the source length, scope 0) x classes {positive, NODATA, NXDOMAIN, referral, REFUSED, BADVERS (EDNS version 1)} x {zone whose names select the client-subnet map, zone whose names do not} x 3 resolver addresses (in the resolver map v4, outside it, in it v6; the quick tier uses all three only for positive answers, the only class where the resolver is observable, and asks BADVERS only in the mapped zone). Every query is packed/unpacked, served by FBDNSDB.ServeDNS (max answers 16 so that no random selection happens), the response packed/unpacked and judged: OPT iff query had one; exactly one ECS iff query had one, family/source/address equal; scope = length of the longest declared subnet of the client's family containing the client network and not longer than it (brute force), 24/48 if the name has a map and nothing matches, 0 if the name has no '8' map; positive answers must be the untagged A plus the A of the deciding location (ECS match, else resolver match). With the cache on every query is asked twice in a row (second_asks_served_from_cache counts DNS_cache.hit increments). states = (database, cache mode, query, ask) cases; transitions = ServeDNS calls; evaluations = judged responses; nontrivial = cases where the model expects a scope or location decided by a map. Reported: one minimal (first in order no-cache < first ask < second ask, then query order) case per backend/kind/configuration/class/wanted-got shape.")
+	r.Set("rule", "configurations = 13 client-subnet map contents (no '8' map; '8' map with no subnets / only 0.0.0.0/0 / only ::/0 / both / host /32+/128 / nested 10/8>10.1/16>10.1.1/24>10.1.1.0/25 and 2001:db8::/32>/48>/56>/64, per family and combined, with defaults, with hosts, with the other family's default only) x resolver map absent/present; each compiled by the real compilers to CDB, RocksDB v1 keys, RocksDB v2 keys (and CDB once more read with db.SeparateBitMap, the per-family prefix-length sets) and opened in the real handler with the cache off and on. queries = {no EDNS, EDNS0 without options, cookie, option 65001, ECS, ECS+cookie, cookie+ECS} x ECS variants (family 1: source lengths {0,1,8,9,16,24,25,32}, thorough 0..32; family 2: {0,1,32,48,56,64,128}, thorough 0..128; 6/7 base addresses on and off the declared subnets, masked to the source length, scope 0) x classes {positive, NODATA, NXDOMAIN, referral, REFUSED, BADVERS (EDNS version 1)} x {zone whose names select the client-subnet map, zone whose names do not} x 3 resolver addresses (in the resolver map v4, outside it, in it v6; the quick tier uses all three only for positive answers, the only class where the resolver is observable, and asks the names without a client-subnet map in the positive and REFUSED classes only; it combines the cookie with the ECS variants of the first base address of each family only). Every query is packed/unpacked, served by FBDNSDB.ServeDNS (max answers 16 so that no random selection happens), the response packed/unpacked and judged: OPT iff query had one; exactly one ECS iff query had one, family/source/address equal; scope = length of the longest declared subnet of the client's family containing the client network and not longer than it (brute force), 24/48 if the name has a map and nothing matches, 0 if the name has no '8' map; positive answers must be the untagged A plus the A of the deciding location (ECS match, else resolver match). With the cache on every query is asked twice in a row (second_asks_served_from_cache counts DNS_cache.hit increments). states = (database, cache mode, query, ask) cases; transitions = ServeDNS calls; evaluations = judged responses; nontrivial = cases where the model expects a scope or location decided by a map. Reported: one minimal (first in order no-cache < first ask < second ask, then query order) case per backend/kind/configuration/class/wanted-got shape.")
 	r.Assume = []string{
 		"IPv6-family ECS addresses inside ::ffff:0:0/96 are not generated (the statement does not say which family's subnets they match)",
 		"query scope is 0 and addresses are masked to the source length (RFC 7871 well-formed queries)",
